@@ -14,7 +14,9 @@ def reseed(seed):
 
 
 KINDS = ["boxed", "ref", "retry", "owned"]
-CONTS = ["vec", "bslice", "arr", "tup"]
+CONTS = ["vec", "bslice", "arr", "tup", "vecref", "vecmut"]
+# "vecref": Vec<&T> (the crate's impls for shared references; not OwnedLockable: checked constructors only, never an owned
+# collection); "vecmut": Vec<&mut T> (the impls for exclusive references, which own their referent)
 
 
 class B:
@@ -63,6 +65,10 @@ class B:
             cont = "vec"
         if cont == "arr" and len(members) > 6:
             cont = "vec"
+        if cont == "vecref" and kind == "owned":
+            cont = "vecmut"
+        if cont == "vecref":
+            ctor = "try"
         if ctor is None:
             # the unchecked constructors build the same collection (the builder never passes duplicates); new_ref only
             # exists for boxed / retrying and is wired for the non-Vec containers
